@@ -76,6 +76,12 @@ def validate(path, outputs, tol, plugins_=None, sheet=None):
         m = ExcelCompiler(filename=path, plugins=plugins_)
         if sheet is not None:
             rep = m.validate_calcs(sheet=sheet, tolerance=tol)
+        elif plugins_ is not None:
+            # the sub-checks on cells that cannot be evaluated: validate_calcs itself must not raise
+            try:
+                rep = m.validate_calcs(output_addrs=outputs, tolerance=tol)
+            except Exception as exc:
+                rep = ('raised', type(exc).__name__, str(exc)[:120])
         else:
             rep = m.validate_calcs(output_addrs=outputs, tolerance=tol)
     return rep
@@ -212,7 +218,7 @@ def work_unevaluable(job):
     acc = Acc()
     tmp = tempfile.mkdtemp(prefix='c12u_')
     try:
-        f = '=NOSUCHFN(A1)' if kind == 'unknown' else '=VBOOM(1,A1)'
+        f = {'unknown': '=NOSUCHFN(A1)', 'raises': '=VBOOM(1,A1)', 'unparseable': '=#REF!A1'}[kind]
         spec = family.S({'A1': 1, 'B1': f, 'C1': '=A1+1', 'D1': '=B1+C1'})
         stored = {'S!B1': 1, 'S!C1': 2, 'S!D1': 3}
         path = os.path.join(tmp, 'u.xlsx')
@@ -225,6 +231,11 @@ def work_unevaluable(job):
             acc.add('distinct_nontrivial')
             rep = validate(path, outs, None, plugins_='mc.plugins')
             section = 'not-implemented' if kind == 'unknown' else 'exceptions'
+            if isinstance(rep, tuple):
+                acc.violation(dict(kind='unevaluable', fault=kind, outputs=outs, verdict='validate-raised', pert=kind, tol=None,
+                                   outputs_kind='all' if outs is None else 1, exc=rep[1]),
+                              f'validate_calcs(outputs={outs}) raised {rep[1]}: {rep[2]} on a workbook holding B1 {f}: the whole report is lost')
+                continue
             listed = [str(e[0]) for v in rep.get(section, {}).values() for e in v]
             reach = outs is None or outs != ['S!C1']
             case = dict(kind='unevaluable', fault=kind, outputs=outs, verdict=None, pert=kind, tol=None,
@@ -239,7 +250,7 @@ def work_unevaluable(job):
                 acc.violation(dict(case, verdict='non-descendant-reported', report=jsonable(rep)),
                               f'C1 reported as mismatch although it is consistent and independent: {str(rep)[:200]}')
         # an altered formula cell that the outputs reach only THROUGH the cell that cannot be evaluated
-        g = '=NOSUCHFN(B1)' if kind == 'unknown' else '=VBOOM(1,B1)'
+        g = {'unknown': '=NOSUCHFN(B1)', 'raises': '=VBOOM(1,B1)', 'unparseable': '=#REF!B1'}[kind]
         for depth, spec2, stored2 in (
                 (1, family.S({'A1': 1, 'B1': '=A1*2', 'C1': g, 'D1': '=C1+1'}), {'S!B1': 3, 'S!C1': 5, 'S!D1': 6}),
                 (2, family.S({'A1': 1, 'A2': '=A1+1', 'B1': '=A2*2', 'C1': g, 'D1': '=C1+1'}),
@@ -256,6 +267,13 @@ def work_unevaluable(job):
                 rep = validate(path2, outs, None, plugins_='mc.plugins')
                 case = dict(kind='unevaluable', fault=kind, outputs=outs, verdict=None, pert=kind, tol=None, behind=depth,
                             outputs_kind='all' if outs is None else 1)
+                if isinstance(rep, tuple):
+                    acc.violation(dict(kind='unevaluable', fault=kind, outputs=outs, verdict='validate-raised', pert=kind, tol=None, behind=depth,
+                                       outputs_kind='all' if outs is None else 1, exc=rep[1]),
+                                  f'validate_calcs(outputs={outs}) raised {rep[1]}: {rep[2]} on a workbook holding C1 {g}')
+                    continue
+                if kind == 'unparseable' and outs is not None:
+                    continue        # a formula that cannot be parsed has no known precedents: B1 is not reachable through it
                 if altered not in rep.get('mismatch', {}):
                     acc.violation(dict(case, verdict='altered-cell-behind-unevaluable-not-named', report=jsonable(rep)),
                                   f'{altered} holds an altered stored result and is reachable from outputs={outs} through C1 {g} '
@@ -280,7 +298,7 @@ def run(ctx):
         jobs += [(f, [None]) for f in enum]
         ctx.extra['enumerated_workbooks'] = len(enum)
     ctx.pmap(work, jobs, timeout=3000)
-    ctx.pmap(work_unevaluable, [('unknown',), ('raises',)], timeout=600)
+    ctx.pmap(work_unevaluable, [('unknown',), ('raises',), ('unparseable',)], timeout=600)
     ctx.counts['traces_validated_against_impl'] = ctx.counts.get('evaluations', 0)
     ctx.extra['tolerances'] = [repr(t) for t in tols]
     ctx.extra['workbooks'] = [f['name'] for f in fams]
